@@ -245,6 +245,12 @@ fn main() {
     lists_dim::<3>(&rep, &cn, &[-0.0, 0.0, 1.0 + 1e-11, 4.0e9], 2, &[1e-10]);
     lists_dim::<4>(&rep, &cn, &[0.0, 1.0, 1.0 + 1e-11], 2, &[1e-10]);
     lists_dim::<5>(&rep, &cn, &[0.0, 1.0 + 1e-11], 2, &[1e-10]);
+    // chains inside one neighbourhood of tolerance-sized cells (eps = 0.5, spacing 0.3): a kept vertex that is far but in
+    // an adjacent cell, a kept vertex that is near, and the vertex under test - the scan order decides which is met first
+    let chain = [0.0, 0.3, 0.6, 0.9, 1.2];
+    lists_dim::<1>(&rep, &cn, &chain, if thorough { 5 } else { 4 }, &[0.5]);
+    lists_dim::<2>(&rep, &cn, &chain, if thorough { 4 } else { 3 }, &[0.5]);
+    lists_dim::<3>(&rep, &cn, &[0.0, 0.3, 0.6, 0.9], 3, &[0.5]);
     let (hc, dd) = (cn.hilbert_cells.load(Ordering::Relaxed), cn.dedups_dropping.load(Ordering::Relaxed));
     if hc < 1_000_000 || dd < 1000 {
         machinery_fail(&format!("C17 vacuous: {hc} Hilbert cells, {dd} dedup calls that dropped something"));
@@ -252,7 +258,7 @@ fn main() {
     let cov = json!({
         "evaluations": hc + cn.orderings.load(Ordering::Relaxed) + cn.dedups.load(Ordering::Relaxed),
         "distinct_nontrivial": cn.lists.load(Ordering::Relaxed) + dd,
-        "rule": "Hilbert: every cell of the 2^(bD) grid for D=1..5 and every b with bD <= 20 (24 thorough) through hilbert_indices_prequantized (bijection onto the index range, consecutive indices adjacent), plus hilbert_quantize / hilbert_index at cell centres; orderings and dedup: every vertex list up to the stated length over the full product of a tie-rich per-axis alphabet (signed zeros, 1 and 1+1e-11, 4e9, 1e300) through the four ordering strategies, the two public dedup helpers and the five private batch dedup implementations (hook wrappers) for eps in {1e-10, 0.5}; non-trivial = lists plus dedup calls that dropped a vertex",
+        "rule": "Hilbert: every cell of the 2^(bD) grid for D=1..5 and every b with bD <= 20 (24 thorough) through hilbert_indices_prequantized (bijection onto the index range, consecutive indices adjacent), plus hilbert_quantize / hilbert_index at cell centres; orderings and dedup: every vertex list up to the stated length over the full product of a tie-rich per-axis alphabet (signed zeros, 1 and 1+1e-11, 4e9, 1e300; and chains 0, 0.3, .., 1.2 for eps = 0.5) through the four ordering strategies, the two public dedup helpers and the five private batch dedup implementations (hook wrappers) for eps in {1e-10, 0.5}; non-trivial = lists plus dedup calls that dropped a vertex",
         "exhaustive": true,
         "hilbert_cells": hc,
         "vertex_lists": cn.lists.load(Ordering::Relaxed),
